@@ -1,6 +1,10 @@
 import GqlModel.Pipeline
 import GqlProofs.Cost
 import GqlProofs.CostDepth
+import Props.C03Lexer
+import Props.C03Parser
+import Props.C02Graph
+import Props.C19
 /-! # C09 — No input makes a public entry point panic, hang or return a malformed result
 
 Property theorems only. Two models:
@@ -23,13 +27,11 @@ cyclic, fragment tables with an explicit fuel bound (`plan_total_on_cyclic_fragm
 execution is bounded by the completions the data causes and the selection (`exec_bounded_by_world_and_selection`), and
 that the DEPTH of execution is bounded by the selection alone, whatever the data (`exec_depth_bounded_by_selection`,
 the formal content of repair D-09d).
-Termination theorems proved by other workers and only REFERENCED here (not re-proved, not imported, so that this module
-does not break when theirs are in flux): `lex_progress`, `lexAll_terminates` (Props/C03Lexer: the lexer consumes input,
-fuel `|bytes| + 1`), `parse_progress`, `parseValue_progress`, `parseType_progress`, `parseSelectionSet_progress`
-(Props/C03Parser: the parser never runs out of fuel `|tokens| + 1`), `fuel_bound_coerceValue`, `fuel_bound_isValidInputValue`,
-`fuel_bound_valueFromAST` … (Props/C05: variable / literal coercion terminates within the depth of the value),
-`collect_fuel_sufficient` (Props/C01: run-time field collection), the fragment-cycle DFS fuel bound (Props/C02Graph) and
-the overlap rule's `memo_body_at_most_once` bound (c02b, GqlModel/Validate/Overlap.lean).
+Termination theorems proved for the other properties are IMPORTED and combined with the above into ONE request-level
+statement, `GqlModel.Request.request_total` (end of this file): `Lexer.lexAll_terminates`, `Parser.parse_progress` (C03),
+`fragmentSpreads_no_oof`, `rrf_spec`, `cycles_no_fuel_exhaustion`, `overlap_no_fuel_exhaustion` (C02), `Cost.plan_never_out_of_fuel`
+(C19) — a regression in any of them breaks this module's obligation too. Not included (no fuel to exhaust): the
+structurally recursive local rules (C02Local) and variable / literal coercion (Props/C05 `fuel_bound_*`).
 What is only SAMPLED (harness/cmd/c09): Go-level nil dereferences, type assertions, reflection, blocking, JSON
 serialisability, wall-clock bounds — on the real entry points. -/
 namespace GqlModel.Pipeline
@@ -166,27 +168,14 @@ Before the repair a fragment cycle through a field made this depth depend on the
 cyclic introspection graph). -/
 theorem exec_depth_bounded_by_selection (e : Env) (root : String) (ss : SelectionSet) (world : World) :
     ∀ id ∈ completedW e (rootPlan e root ss).fields [] world,
-      id.length ≤ 1 + depthSet ss + (maxBodyDepth e.frags + 1) * e.frags.length := by
-  have hgood : GoodChain e.frags [] := ⟨List.nodup_nil, fun _ h => by simp at h⟩
-  have hnew := collectFuel_depth (e.ctx root) (fuelFor (e.ctx root)) [] ss {} hgood
-  have hsub : SubsBelow e.frags (depthSet ss + slack e.frags []) (rootPlan e root ss).fields := by
-    intro fp hfp s hs
-    rcases hnew fp hfp s hs with ⟨fp0, h0, _⟩ | h
-    · simp at h0
-    · exact h
-  intro id hid
-  have := completedW_depth e world _ [] _ hsub id hid
-  simp only [slack, List.length_nil, Nat.sub_zero] at this
-  omega
+      id.length ≤ 1 + depthSet ss + (maxBodyDepth e.frags + 1) * e.frags.length :=
+  completed_depth_le e root ss world
 
 /-- … in particular every sub-selection an execution plans lazily sits at such a bounded path. -/
 theorem lazy_plans_at_bounded_depth (e : Env) (root : String) (ss : SelectionSet) (world : World) :
     ∀ en ∈ (execW e (rootPlan e root ss).fields [] world {}).log,
-      en.id.length ≤ 1 + depthSet ss + (maxBodyDepth e.frags + 1) * e.frags.length := by
-  intro en hen
-  rcases execW_mem e world _ _ _ en hen with h | h
-  · simp at h
-  · exact exec_depth_bounded_by_selection e root ss world en.id h
+      en.id.length ≤ 1 + depthSet ss + (maxBodyDepth e.frags + 1) * e.frags.length :=
+  log_depth_le e root ss world
 
 /-! ## Non-vacuity -/
 
@@ -210,3 +199,45 @@ example :
     st.oof = false ∧ st.collect = 3 ∧ st.entered = ["G", "F"] := by decide +kernel
 
 end GqlModel.Cost
+
+/-! ## ONE request-level totality statement over the models that exist
+
+Corollaries of the theorems of the other properties — imported, not re-proved: a regression in any of them breaks
+this obligation too. -/
+namespace GqlModel.Request
+open GqlModel GqlModel.Validate GqlModel.Validate.Graph GqlModel.Validate.Overlap
+
+/-- T1 `request_total`. For every byte string, every token list, every schema and every AST (valid or not, cyclic
+fragments included), every operation name, variable assignment and data world, and every combination of stage outcomes:
+* the LEXER model terminates: iterating `Lex` over the bytes never exhausts its fuel `|bytes| + 1`
+  (`Lexer.lexAll_terminates`, C03);
+* the PARSER model terminates: `parseTokens` never ends in the fuel error (`Parser.parse_progress`, C03);
+* VALIDATION returns: `FragmentSpreads`, `RecursivelyReferencedFragments` and the cycle DFS stay within their fuel on any
+  spread graph (`fragmentSpreads_no_oof`, `rrf_spec`, `cycles_no_fuel_exhaustion`, C02), and so does the memoised overlap
+  rule whenever selection sets have distinct locations, as in every parsed document (`overlap_no_fuel_exhaustion`, C02)
+  — the remaining rules are structurally recursive functions of the document;
+* PLANNING is total on cyclic fragments: neither `PlanQuery` nor any lazily planned sub-selection of any execution
+  exhausts the fuel `#fragments + 1` (`Cost.plan_never_out_of_fuel`, C19);
+* the PIPELINE's result is well-shaped: no data when parsing or validation failed, at least one error whenever data is
+  absent, no panic outcome once `PlanQuery` does not panic (this file). -/
+theorem request_total (bytes : Lexer.Bytes) (toks : List Token) (s : Schema) (d : Document) (opName : String)
+    (vars : Cost.Vars) (world : Cost.World) (o : Pipeline.Oracle) :
+    (∀ e, (Lexer.lexAll bytes).err = some e → e.kind ≠ .fuel) ∧
+    Parser.parseTokens toks ≠ .error .fuel ∧
+    ((∀ ss, (fragmentSpreadsF ss).2 = false) ∧
+     (∀ sel, (recursivelyReferencedF (fragDefs d) sel).2 = false) ∧
+     (cycleRun (fragDefs d)).oof = false ∧
+     (locsDistinct d = true → (overlapM s d).1.oof = false)) ∧
+    (Cost.execPlan s d opName vars world).oof = false ∧
+    ((o.parseOk = false ∨ o.validationErrs ≠ 0 →
+        ∃ r, Pipeline.«do» o = .result r ∧ r.hasData = false ∧ 1 ≤ r.errs) ∧
+     (∀ r, Pipeline.«do» o = .result r → r.hasData = false → 1 ≤ r.errs) ∧
+     (o.exec.planPanics = false → ∃ r, Pipeline.«do» o = .result r)) :=
+  ⟨(Lexer.lexAll_terminates bytes).1,
+   Parser.parse_progress toks,
+   ⟨fragmentSpreads_no_oof, fun sel => (rrf_spec (fragDefs d) sel).1, cycles_no_fuel_exhaustion d,
+    overlap_no_fuel_exhaustion s d⟩,
+   Cost.plan_never_out_of_fuel s d opName vars world,
+   ⟨Pipeline.no_data_on_parse_or_validation_failure o, Pipeline.error_when_no_data o, Pipeline.do_never_panics o⟩⟩
+
+end GqlModel.Request
